@@ -950,7 +950,8 @@ func exprToString(expr ast.Expr) string {
 		case ast.IntLiteral:
 			return fmt.Sprintf("int:%d", lit.Value)
 		case ast.FloatLiteral:
-			return fmt.Sprintf("float:%f", lit.Value)
+			// %v keeps every digit; %f would print 1.0000001 and 1.0000002 alike
+			return fmt.Sprintf("float:%v", lit.Value)
 		case ast.BoolLiteral:
 			return fmt.Sprintf("bool:%v", lit.Value)
 		case ast.StringLiteral:
